@@ -41,11 +41,11 @@ P = {"set": "C04.set", "counter": "C04.counter", "legit": "C04.legit_raise", "te
 
 
 def budget(tier):
-    return {"cases": 16 * 400 if tier == "quick" else 16 * 8000}
+    return {"cases": 16 * 400 if tier == "quick" else 16 * 3000}
 
 
 def strategy(tier):
-    return drv.case_strategy(tier, max_ops=60 if tier == "quick" else 150)
+    return drv.case_strategy(tier, max_ops=60 if tier == "quick" else 120)
 
 
 def exhaustive(tier):
